@@ -45,7 +45,7 @@ def roots():
                                                               {"name": "ss_zc", "type": "shapesys", "data": [5.0, 4.0]}]}]},
         {"name": "ab", "samples": [
             {"name": "bkg", "data": [80.0, 60.0, 40.0], "modifiers": [{"name": "h1", "type": "histosys", "data": {"lo_data": [75.0, 57.0, 39.0], "hi_data": [86.0, 62.0, 41.5]}}]}]}]},
-        {"zc": [55.0, 41.0], "ab": [83.0, 57.0, 42.0]})
+        {"zc": [61.0, 44.0], "ab": [83.0, 57.0, 42.0]})  # an excess: mu_hat ~ 1.3, so mu_hat/k leaves the default POI range for k = 0.1
     R["R3"] = ({"channels": [
         {"name": "m", "samples": [
             {"name": "sig", "data": [8.0], "modifiers": [mu(), {"name": "lumi", "type": "lumi", "data": None}]},
@@ -257,7 +257,8 @@ def rw_scale_signal(k):
 
 REWRITES = [("perm_channels", rw_perm_channels), ("perm_samples", rw_perm_samples), ("perm_modifiers", rw_perm_modifiers), ("rename_channel", rw_rename_channel),
             ("rename_sample", rw_rename_sample), ("rename_parameter", rw_rename_parameter), ("zero_sample", rw_zero_sample), ("null_systematics", rw_null_systematics),
-            ("split_channel", rw_split_channel), ("merge_samples", rw_merge_samples), ("scale_signal_x2", rw_scale_signal(2.0)), ("scale_signal_x0.5", rw_scale_signal(0.5))]
+            ("split_channel", rw_split_channel), ("merge_samples", rw_merge_samples), ("scale_signal_x2", rw_scale_signal(2.0)), ("scale_signal_x0.5", rw_scale_signal(0.5)),
+            ("scale_signal_x0.1", rw_scale_signal(0.1))]
 RW = dict(REWRITES)
 
 
@@ -308,14 +309,17 @@ def measure(spec, obs, poi="mu", scale=1.0, limits=False, mus=(0.6, 1.2)):
     d = tl.astensor(np.asarray(data, dtype=np.float64))
     f = lambda t: float(np.ravel(np.asarray(tl.tolist(t), dtype=float))[0])
     out = {}
-    _, nll = pyhf.infer.mle.fit(d, m, return_fitted_val=True)
+    # the POI range is the caller's: it scales with 1/k like the POI itself (root: the suggested (0, 10))
+    bounds = m.config.suggested_bounds()
+    bounds[m.config.poi_index] = (0.0, 10.0 / scale)
+    _, nll = pyhf.infer.mle.fit(d, m, par_bounds=bounds, return_fitted_val=True)
     out["nll"] = f(nll)
     out["q"] = []
     out["cls"] = []
     for mu in mus:
         mt = mu / scale
-        out["q"].append(f(pyhf.infer.test_statistics.qmu_tilde(mt, d, m, m.config.suggested_init(), m.config.suggested_bounds(), m.config.suggested_fixed())))
-        r = pyhf.infer.hypotest(mt, d, m, return_expected_set=True)
+        out["q"].append(f(pyhf.infer.test_statistics.qmu_tilde(mt, d, m, m.config.suggested_init(), bounds, m.config.suggested_fixed())))
+        r = pyhf.infer.hypotest(mt, d, m, par_bounds=bounds, return_expected_set=True)
         out["cls"].append([f(r[0])] + [f(x) for x in r[1]])
     if limits:
         o, e = pyhf.infer.intervals.upper_limits.upper_limit(d, m, level=0.05, rtol=1e-6)
